@@ -37,8 +37,9 @@ N == Len(Rec)
 Ix == 1..3
 SIx == 1..2
 
-VARIABLES l, ost, hst, gst, fst, sst, smode, ver, sval, app, ebeg, endedB, bad, badl, scen
-tvars == <<l, ost, hst, gst, fst, sst, smode, ver, sval, app, ebeg, endedB, bad, badl, scen>>
+VARIABLES l, ost, hst, gst, fst, sst, smode, ver, sval, app, ebeg, endedB, bad, badl, scen,
+          faulted  \* slot guards whose payload's close was made to panic: they deliver no value
+tvars == <<l, ost, hst, gst, fst, sst, smode, ver, sval, app, ebeg, endedB, bad, badl, scen, faulted>>
 
 Ev(name) == l <= N /\ Rec[l].ev = name
 Adv == l' = l + 1
@@ -50,7 +51,7 @@ Fresh ==
     /\ ver' = 0 /\ sval' = [i \in SIx |-> 0] /\ app' = 0 /\ ebeg' = FALSE /\ endedB' = {}
 
 TInit ==
-    /\ l = 1 /\ bad = "ok" /\ badl = 0 /\ scen = 0
+    /\ l = 1 /\ bad = "ok" /\ badl = 0 /\ scen = 0 /\ faulted = {}
     /\ ost = "live"
     /\ hst = [i \in Ix |-> "none"] /\ gst = [i \in Ix |-> "none"] /\ fst = [i \in Ix |-> "none"]
     /\ sst = [i \in SIx |-> "none"] /\ smode = [i \in SIx |-> "discard"]
@@ -78,12 +79,12 @@ CondEnded == OwnersEnded /\ (GuardsEnded \/ ForceEnded)
 NoneDropping == /\ ost # "dropping" /\ \A i \in Ix : hst[i] # "dropping" /\ gst[i] # "dropping" /\ fst[i] # "dropping"
                 /\ \A s \in SIx : sst[s] # "dropping"
 
-Keep(vs) == UNCHANGED <<vs, scen>>
+Keep(vs) == UNCHANGED <<vs, scen, faulted>>
 Flag(b) == /\ bad' = (IF bad = "ok" THEN b ELSE bad)
            /\ badl' = (IF bad = "ok" /\ b # "ok" THEN l ELSE badl)
 
 TReset == /\ Ev("Reset") /\ Adv /\ Fresh
-          /\ bad' = "ok" /\ badl' = 0 /\ scen' = Rec[l].id
+          /\ bad' = "ok" /\ badl' = 0 /\ scen' = Rec[l].id /\ faulted' = {}
           /\ (bad = "ok" \/ PrintT(<<"BAD", ToJson(<<scen, badl, bad>>)>>))
 
 TNew ==
@@ -125,7 +126,8 @@ TEmitBegin ==
     /\ Keep(<<ost, hst, gst, fst, sst, smode, ver, sval, app>>)
 
 SlotVerdict(s, v) ==
-    IF v >= 0 /\ ~Begun(sst[s]) THEN "ghost: slot value appended although its guard's drop has not started"
+    IF s \in faulted THEN (IF v >= 0 THEN "ghost: slot value appended although its guard went away without delivering one" ELSE "ok")
+    ELSE IF v >= 0 /\ ~Begun(sst[s]) THEN "ghost: slot value appended although its guard's drop has not started"
     ELSE IF v >= 0 /\ v # sval[s] THEN "partial: appended slot value is not the value as last mutated through the guard"
     ELSE IF v < 0 /\ s \in endedB THEN "lost: slot guard was dropped before the entry was closed but its value is absent"
     ELSE IF v < 0 /\ IsWait(s) /\ ~ForceStarted THEN "lost: wait-mode slot value absent although no force-flush guard was dropped"
@@ -158,6 +160,15 @@ TReOpen ==
 
 TWaited == Ev("Waited") /\ Adv /\ Keep(<<ost, hst, gst, fst, sst, smode, ver, sval, app, ebeg, endedB, bad, badl>>)
 
+\* fault injection: the payload of slot guard i will panic in its close (the guard's drop then delivers nothing;
+\* the entry must still be appended exactly once, with everything else in it)
+TFault == /\ Ev("Fault") /\ Adv /\ faulted' = faulted \cup {Rec[l].i}
+          /\ UNCHANGED <<ost, hst, gst, fst, sst, smode, ver, sval, app, ebeg, endedB, bad, badl, scen>>
+
+\* an observer thread Debug-formatted a live flush guard / slot guard n times while others were dropping:
+\* a stuttering step, it must not change anything the property talks about
+TObserve == Ev("Observe") /\ Adv /\ Keep(<<ost, hst, gst, fst, sst, smode, ver, sval, app, ebeg, endedB, bad, badl>>)
+
 \* scheduled replay: the wait was given up after its short budget (a gated thread was slow): no observation
 TWaitSkipped == Ev("WaitSkipped") /\ Adv /\ Keep(<<ost, hst, gst, fst, sst, smode, ver, sval, app, ebeg, endedB, bad, badl>>)
 
@@ -168,7 +179,7 @@ TPanic == Ev("Panic") /\ Adv /\ Flag("panic: the code under test panicked")
           /\ Keep(<<ost, hst, gst, fst, sst, smode, ver, sval, app, ebeg, endedB>>)
 
 TNext_ == TReset \/ TNew \/ TMut \/ TSMut \/ TDropStart \/ TDropEnd \/ TEmitBegin \/ TAppend \/ TQuiesce
-          \/ TReOpen \/ TWaited \/ TWaitSkipped \/ TWaitTimeout \/ TPanic
+          \/ TReOpen \/ TWaited \/ TFault \/ TObserve \/ TWaitSkipped \/ TWaitTimeout \/ TPanic
 
 TSpec == TInit /\ [][TNext_]_tvars
 
